@@ -62,7 +62,8 @@ Section Assoc.
 End Assoc.
 
 (** ---------- results ---------- *)
-Inductive err := ENotExist | EExist | EDirExists | EOther.
+Inductive err := ENotExist | EExist | EDirExists | EOther
+               | EAny.   (* model side only: some error, class not determined *)
 Inductive out :=
 | ROk
 | RErr (e : err)
@@ -96,7 +97,10 @@ Inductive op :=
 | OStat (p : list name)                           (* Lookup; type, Size, Mode, ModTime *)
 | OList (p : list name)                           (* Lookup; ListNames *)
 | ORead (p : list name)                           (* Lookup; Open(Read); read all; Close *)
-| OFd (p : list name) (sync : bool) (acts : list fdact). (* Lookup; Open(Write,Sync); the acts; Close *)
+| OFd (p : list name) (sync : bool) (acts : list fdact) (* Lookup; Open(Write,Sync); the acts; Close *)
+(* the same calls as OCreate / OMv, made while every DAGService.Add fails (store down / full) *)
+| OCreateX (p : list name)
+| OMvX (src dst : list name) (slash : bool).
 
 Fixpoint split_last {A} (l : list A) : option (list A * A) :=
   match l with
@@ -338,6 +342,9 @@ Definition t_step (t : node) (o : op) : node * out :=
   | OList p => tnav p tg_list t
   | ORead p => tnav p tg_read t
   | OFd p _ acts => t_fd p true 0 [] acts t []
+  (* the call must fail (AddChild always stores the node first) and must change nothing *)
+  | OCreateX _ => (t, RErr EAny)
+  | OMvX _ _ _ => (t, RErr EAny)
   end.
 
 Fixpoint t_run (t : node) (ops : list op) : node * list out :=
@@ -522,8 +529,10 @@ Fixpoint m_mkdir (p : list name) (parents : bool) (o : obj) : lres :=
 
 (** defect switches: [true] = what the current code does *)
 Record flags := { f_mv_name : bool;   (* Mv compares the parent directories by NAME, not identity *)
-                  f_mv_self : bool }. (* Mv does not refuse to move a directory below itself *)
-Definition flags_off : flags := {| f_mv_name := false; f_mv_self := false |}.
+                  f_mv_self : bool;   (* Mv does not refuse to move a directory below itself *)
+                  f_mvx_unlink : bool }. (* Mv unlinks an existing destination FILE before it knows
+                                            that linking the source there will succeed *)
+Definition flags_off : flags := {| f_mv_name := false; f_mv_self := false; f_mvx_unlink := false |}.
 
 Definition same_dir (fl : flags) (p q : list name) : bool :=
   if f_mv_name fl then dir_name p =? dir_name q else path_eqb p q.
@@ -559,6 +568,66 @@ Definition m_mv (fl : flags) (src dst : list name) (slash : bool) (o : obj) : ob
           if same_dir fl sdir fdir && (sname =? fname) then (o6, ROk) else
           res2 (nav sdir (g_unlink sname) o6)                         (* srcDir.Unlink *)
       | _ => (o3, x3)
+      end
+  end.
+
+(** path walk while the store is down: a directory that is not cached cannot be loaded
+    (cacheNode -> NewDirectory stores the node first), a file can (NewFile stores nothing) *)
+Definition childx (o : obj) (k : name) : obj * option obj * bool :=
+  match o with
+  | OFile _ _ _ => (o, None, false)
+  | ODir pers m t cache =>
+      match lookup cache k with
+      | Some c => (o, Some c, false)
+      | None =>
+          match lookup pers k with
+          | Some (NFile d fm ft) => (ODir pers m t (upd k (OFile d fm ft) cache), Some (OFile d fm ft), false)
+          | Some (NDir _ _ _) => (o, None, true)
+          | None => (o, None, false)
+          end
+      end
+  end.
+(** the kind of the object at [p] (Some true = directory), or None when the walk fails *)
+Fixpoint navx (p : list name) (o : obj) : obj * option bool :=
+  match p with
+  | [] => (o, Some (match o with ODir _ _ _ _ => true | OFile _ _ _ => false end))
+  | k :: r =>
+      match o with
+      | OFile _ _ _ => (o, None)
+      | ODir _ _ _ _ =>
+          let '(o1, oc, _) := childx o k in
+          match oc with
+          | None => (o1, None)
+          | Some c => let (c', x) := navx r c in (set_cache k c' o1, x)
+          end
+      end
+  end.
+(** Mv with the store down, as the code is: both parents and the source are looked up, a
+    source directory cannot produce its node (GetNode stores it), an existing destination
+    file is unlinked, then AddChild fails *)
+Definition m_mvx (src dst : list name) (slash : bool) (o : obj) : obj :=
+  match mv_target src dst slash with
+  | None => o
+  | Some (sdir, sname, ddir, dname) =>
+      let (o1, k1) := navx ddir o in
+      match k1 with
+      | Some true =>
+          let (o2, k2) := navx sdir o1 in
+          match k2 with
+          | Some true =>
+              let (o3, k3) := navx (sdir ++ [sname]) o2 in
+              match k3 with
+              | Some false =>
+                  let (o4, k4) := navx (ddir ++ [dname]) o3 in
+                  match k4 with
+                  | Some false => fst3 (nav ddir (g_unlink dname) o4)
+                  | _ => o4
+                  end
+              | _ => o3
+              end
+          | _ => o2
+          end
+      | _ => o1
       end
   end.
 
@@ -603,6 +672,8 @@ Definition m_step (fl : flags) (o : obj) (op : op) : obj * out :=
   | OList p => res2 (nav p g_list o)
   | ORead p => res2 (nav p g_read o)
   | OFd p sync acts => m_fd p sync true 0 [] acts o []
+  | OCreateX _ => (o, RErr EAny)
+  | OMvX src dst slash => (if f_mvx_unlink fl then m_mvx src dst slash o else o, RErr EAny)
   end.
 
 Fixpoint m_run (fl : flags) (o : obj) (ops : list op) : obj * list out :=
@@ -656,6 +727,7 @@ Fixpoint node_match (a b : node) : bool :=
 Definition err_eqb (a b : err) : bool :=
   match a, b with
   | ENotExist, ENotExist | EExist, EExist | EDirExists, EDirExists | EOther, EOther => true
+  | EAny, _ => true      (* [a] is the model's answer *)
   | _, _ => false
   end.
 
@@ -674,9 +746,11 @@ Definition out_match (model obs : out) : bool :=
 (** A case: the operations run on a fresh empty MFS root, and what each returned. *)
 Inductive case := Case (ops : list op) (outs : list out).
 
-Definition flags_name : flags := {| f_mv_name := true; f_mv_self := false |}.
-Definition flags_self : flags := {| f_mv_name := false; f_mv_self := true |}.
-Definition flags_both : flags := {| f_mv_name := true; f_mv_self := true |}.
+Definition flags_name : flags := {| f_mv_name := true; f_mv_self := false; f_mvx_unlink := false |}.
+Definition flags_self : flags := {| f_mv_name := false; f_mv_self := true; f_mvx_unlink := false |}.
+Definition flags_both : flags := {| f_mv_name := true; f_mv_self := true; f_mvx_unlink := false |}.
+Definition flags_mvx : flags := {| f_mv_name := false; f_mv_self := false; f_mvx_unlink := true |}.
+Definition flags_self_mvx : flags := {| f_mv_name := false; f_mv_self := true; f_mvx_unlink := true |}.
 
 (** "failed operations leave the tree unchanged", evaluated along the specification run of
     the case (proved for all histories in P_C19 except for the late failure points of Mv,
@@ -698,8 +772,10 @@ Definition check_case (c : case) : verdict :=
       if list_eqb out_match spec outs
       then (if impl_is flags_off then VOk else VModelMismatch)
       else if negb (list_eqb out_match (snd (m_run flags_off (load newdir) ops)) spec) then VSpecFail
-      else if impl_is flags_name then VKnown 1
       else if impl_is flags_self then VKnown 2
+      else if impl_is flags_mvx then VKnown 5
+      else if impl_is flags_self_mvx then VKnown 5
+      else if impl_is flags_name then VKnown 1
       else if impl_is flags_both then VKnown 1
       else VSpecFail
   end.
